@@ -61,6 +61,16 @@ func c09(c *Ctx) (*report.Result, error) {
 	checkRemoteForwardCondition(c, res, "O9.13")
 	res.RuleDoc["O9.14"] = "the intra-proxy stream tables are maintained on every path: RegisterSender files the sender (and a peer state it creates) for every cross-cluster pair, UnregisterSender deletes that entry, ensureStream files the receiver it creates and starts it as a goroutine"
 	checkIntraStreamTables(c, res, "O9.14")
+	res.RuleDoc["O9.18"] = "giving up a claim is one atomic step: the comparison of the stored registration stamp with the caller's and the delete of the claim sit in one critical section of the shard table's mutex (the UnregisterShard obligations of O8.1, imported) - checked under the read lock and deleted under a later write lock, a re-registration that lands in between (the newest claim) is deleted and announced as given up, and after the peer yields to that newest claim nobody owns the shard"
+	if r8, err := Registry["C08"](c); err == nil && r8 != nil {
+		if n := importObligations(res, r8, "O9.18", func(o report.Obligation) bool {
+			return o.Rule == "O8.1" && strings.Contains(o.Construct, "UnregisterShard")
+		}); n < 1 {
+			res.Undec("O9.18", "UnregisterShard obligations of O8.1", "", "none imported")
+		}
+	} else {
+		res.Undec("O9.18", "UnregisterShard obligations of O8.1", "", "C08 rule set failed")
+	}
 	res.RuleDoc["O9.16"] = "a node's advertised shard table is never edited in place: no update, delete or clear on a map read from a NodeShardState.Shards field anywhere in package proxy - the table of remote states hands out struct copies that share the one map the membership code stored, so a 'filter on a copy' in a debug snapshot removes a peer's claim from the ownership view, outside its mutex; states are replaced as a whole and built from fresh maps"
 	checkAdvertisedShardsImmutable(c, res, "O9.16")
 	res.RuleDoc["O9.17"] = "the state a node advertises fits memberlist's limit (same analysis as O20.14): NodeMeta returns the marshalled state only where its own length was compared with the limit - an oversized meta panics in the UpdateNode goroutine and takes the instance, and every shard it owns, out of the cluster"
@@ -725,37 +735,7 @@ func checkIntraSenders(c *Ctx, res *report.Result, rule string) {
 					continue
 				}
 				rv := flow.Ret(ret)[0]
-				var mayBeNil func(v ssa.Value, d int) bool
-				mayBeNil = func(v ssa.Value, d int) bool {
-					if d > 4 {
-						return true
-					}
-					if flow.IsNilConst(v) {
-						return true
-					}
-					for _, g := range flow.NormGuards(flow.Guards(b)) {
-						if bo, isB := g.Cond.(*ssa.BinOp); isB {
-							x, y := flow.ResolveLoad(bo.X), flow.ResolveLoad(bo.Y)
-							if (x == v && flow.IsNilConst(y) || y == v && flow.IsNilConst(x)) && (bo.Op == token.NEQ && g.Side || bo.Op == token.EQL && !g.Side) {
-								return false
-							}
-						}
-					}
-					switch x := v.(type) {
-					case *ssa.Call:
-						if sc := flow.StaticCallee(&x.Call); sc != nil && sc.Pkg != nil && (sc.Pkg.Pkg.Path() == "errors" && sc.Name() == "New" || sc.Pkg.Pkg.Path() == "fmt" && sc.Name() == "Errorf") {
-							return false
-						}
-					case *ssa.Phi:
-						for _, e := range x.Edges {
-							if mayBeNil(e, d+1) {
-								return true
-							}
-						}
-						return false
-					}
-					return true
-				}
+				mayBeNil := func(v ssa.Value, d int) bool { return errMayBeNil(v, b, d) }
 				if !mayBeNil(rv, 0) {
 					continue
 				}
